@@ -894,7 +894,8 @@ class Interp:
         self.notes |= p.notes
         self.opaque_errors.extend(p.opaque_errors)
         if p.exc is not None:
-            self.raise_(InstV(p.exc.cls, p.exc.attrs))
+            # '<service>': the exception comes out of a call on the service reference (in-process servicer or stub)
+            self.raise_(InstV(p.exc.cls, dict(p.exc.attrs, **{'<service>': Const(name)})))
         return UNKNOWN
 
     def remote_rpc(self, name, args, kwargs, fr):
